@@ -128,6 +128,9 @@ def run_case(ctx, case):
             w.apply(["file", 0, "g.bin", "x" * 300])
         if case["payload"] == "nested":
             w.apply(["file", 0, "sub/h.txt", "é\n"])
+            # ordinary data whose names look like editor backups
+            w.apply(["file", 0, "notes.txt~", "kept"])
+            w.apply(["file", 0, "arch~/h.dat~", "kept too"])
     existed = not case.get("uninit")
 
     # --- destination
